@@ -54,10 +54,9 @@ def run(chk):
             evaluated = rule_layout_eval(chk, cl, gl)
         except Exception as e:            # the model could not be evaluated: the shape rules decide
             chk.note("layout model not evaluated: %r" % (e,))
-    if cl:
-        rule_cover(chk, cl, structured=not evaluated)
-        if not evaluated:
-            rule_compare(chk, cl)
+    if cl and not evaluated:
+        rule_cover(chk, cl, structured=True)
+        rule_compare(chk, cl)
     if gl and not evaluated:
         rule_shape(chk, gl)
 
@@ -137,14 +136,26 @@ def rule_layout_eval(chk, cl, gl):
     glob_sets = {"a ByteAddressBuffer global": [m.object("ByteAddressBuffer", None)], "a RWByteAddressBuffer global": [m.object("RWByteAddressBuffer", None)],
                  "a BufferAddress global": [m.object("BufferAddress", None)], "a RWBufferAddress global": [m.object("RWBufferAddress", None)],
                  "an array of ByteAddressBuffer": [m.array(m.object("ByteAddressBuffer", None), 4)], "a const ByteAddressBuffer global": [m.modifier(m.object("ByteAddressBuffer", None))]}
-    for intr in ("ByteAddressBufferLoadT", "RWByteAddressBufferLoadT", "RWByteAddressBufferStore", "BufferAddressLoad", "RWBufferAddressLoad", "RWBufferAddressStore"):
+    want, n_defs = typed_access_intrinsics(f)
+    per_intr = {}
+    for intr in sorted(want | {"ByteAddressBufferLoadT", "RWByteAddressBufferLoadT", "RWByteAddressBufferStore", "BufferAddressLoad", "RWBufferAddressLoad", "RWBufferAddressStore"}):
         for gname, gl_ in glob_sets.items():
             r = m.check(gl_, typed=[(intr, mism)])
             if r[0] in ("unreadable",):
                 badt = badt or ("unreadable", r[1])
                 break
-            if r[0] != "Mismatch" and badt is None:
-                badt = "a struct whose HLSL and Metal layouts differ, used only as the T of %s, in a module with %s, gives %s: the typed load / store is not validated" % (intr, gname, r[0])
+            if r[0] != "Mismatch":
+                per_intr.setdefault(intr, "a struct whose HLSL and Metal layouts differ, used only as the T of %s, in a module with %s, gives %s: the typed load / store is not validated" % (intr, gname, r[0]))
+                if badt is None:
+                    badt = per_intr[intr]
+        else:
+            per_intr.setdefault(intr, None)
+    if not isinstance(badt, tuple):
+        # (the per-intrinsic obligations of the shape rule, decided by evaluation: the list of typed accesses is intrinsic_data's)
+        for intr, why in sorted(per_intr.items()):
+            chk.ob("C19.cover/%s" % intr, why is None, why or "typed raw-buffer access is validated", where(cl), sample={"intrinsic": intr})
+        chk.floor("C19.floor/listed-intrinsics", len(per_intr), 6, "typed load / store intrinsics evaluated through check_layout", where(cl))
+        chk.floor("C19.floor/intrinsic-definitions", n_defs, 300, "IntrinsicDefinition entries read from intrinsic_data", where(cl))
     if isinstance(badt, tuple):
         chk.unreadable("C19.cover/typed-loads", "check_layout on modules with typed load instantiations", badt[1][:100], where(cl))
     else:
@@ -154,6 +165,26 @@ def rule_layout_eval(chk, cl, gl):
     chk.ob("C19.cover/every-global", r[0] == "Mismatch", "every structured buffer global is examined" if r[0] == "Mismatch" else
            "a mismatching buffer declared after an accepted one is not reported (%s)" % (r,), where(cl))
     return True
+
+
+def typed_access_intrinsics(f):
+    """(intrinsics that intrinsic_data declares as object methods templated on a function template argument - `T Load(uint)`,
+    `void Store(uint, T)`: the typed raw-buffer accesses whose element type must be validated -, number of definitions read)"""
+    objs = f.variants("ir_types::ObjectType", "rssl_ir") or []
+    want = set()
+    n_defs = 0
+    for b in f.crates["rssl_ir"]["bodies"]:
+        if "intrinsic_data" not in b["path"] or "thir" not in b:
+            continue
+        for a in F.exprs(b["thir"], "Adt"):
+            if short(a["adt"]) == "IntrinsicDefinition":
+                n_defs += 1
+                fl = {x["f"]: x["e"] for x in a["fields"]}
+                intr = F.adt_ctor(fl.get("intrinsic", {}))
+                if intr and any(short(x.get("adt", "")) == "TypeDef" and x.get("variant") == "FunctionTemplateArgument" for x in F.exprs(a, "Adt")):
+                    if any(intr[1].startswith(o) for o in objs):
+                        want.add(intr[1])
+    return want, n_defs
 
 
 def rule_cover(chk, cl, structured=True):
